@@ -104,7 +104,8 @@ class Write(Harness):
                        "lengths w-1, w, w+1, 2w), FASTQ; 0-3 rows; integer cells symbolic in [0,12] ([-12,12] for 2-row BED3); text cells "
                        "symbolic; every split of the rows into successive write calls (including empty pieces), the pieces being slices of the "
                        "one table object, which is then written once more",
-              "thorough": "integer cells in [0, 10^4], 4 rows, longer sequences"}
+              "thorough": "every split of the rows; integer cells in [-10^4, 10^4] (tables with <= 2 integer cells), [-1200, 1200] (<= 4), "
+                          "[0, 120] (more); longer wrapped sequences"}
     assumptions = ("float columns (bedGraph, narrowPeak) are not covered: float_to_strings formats with Python str()",
                    "gzip targets and append mode to an existing file are not covered (file object contract only)")
 
@@ -130,7 +131,10 @@ class Write(Harness):
                     if tab == "bed3" and n == 2:
                         sk["int_range"] = [-12, 12] if tier == "quick" else [-120, 1200]
                     if tier == "thorough":
-                        sk["int_range"] = [-10 ** 4, 10 ** 4] if tab == "bed3" else [0, 10 ** 4]
+                        # every integer cell forks on sign and digit count: the range shrinks with the number of integer cells
+                        n_int = n * sum(1 for _, kind in TABLES[tab]["cols"] if kind == "int")
+                        hi = 10 ** 4 if n_int <= 2 else (1200 if n_int <= 4 else 120)
+                        sk["int_range"] = [-hi, hi] if tab == "bed3" and n_int <= 4 else [0, hi]
                     out.append(sk)
         for w in (2, 3):
             for lens in ([w - 1], [w], [w + 1], [2 * w, 1], [w, w + 1, 2 * w - 1]) + (([3 * w], [2 * w + 1, w]) if tier == "thorough" else ()):
